@@ -338,7 +338,11 @@ func (st *contentState) writeExternal() {
 			st.r.Logf("external: write failed: %v", err)
 			return
 		}
-		md.DataBlocks = append(md.DataBlocks, bs.DataBlockMetadata{RowDataOffset: off, RowDataSize: len(buf), Rows: len(g), Compression: bs.CompressionNone, UncompressedSize: len(buf)})
+		comp := bs.CompressionNone
+		if st.wl.ExtFilter {
+			comp = "" // legacy files carry the empty compression value, documented as equal to "none"
+		}
+		md.DataBlocks = append(md.DataBlocks, bs.DataBlockMetadata{RowDataOffset: off, RowDataSize: len(buf), Rows: len(g), Compression: comp, UncompressedSize: len(buf)})
 		off += len(buf)
 	}
 	md.BlockFilterRegionOffset = off
@@ -465,6 +469,14 @@ func RunContent(r *Run, variant string) {
 	// ---- phase 2: queries ----
 	if st.simMeta != nil {
 		st.simMeta.Bug = wl.MetaBug
+	}
+	if r.S.Draw(3) == 0 {
+		// Fine-grained interleaving of concurrent block scans (pooled buffers, batching, handles).
+		simrt.YieldEnabled = func(site string) bool {
+			return strings.HasPrefix(site, "query_") || strings.HasPrefix(site, "file_format") || strings.HasPrefix(site, "codec_pool") || site == "start"
+		}
+		simrt.SetMode(simrt.ModeFine)
+		r.Probe("content.fine-queries")
 	}
 	var specs []*SpecRow
 	values := map[string][]int64{}
@@ -601,8 +613,9 @@ func (st *contentState) evaluate(startCalls int, qeng *bs.BloomSearchEngine) {
 			continue
 		}
 		if qr.Err != nil {
+			// No store call failed in this scenario, so nothing excuses a missing row: the checks
+			// below go on (a spurious internal failure that loses rows is a C01 violation).
 			r.Violate("C20", "fault-free-query-error", "query %s finished with error %v although no fault was injected", qr.Tag, qr.Err)
-			continue
 		}
 		var pf *bs.QueryPrefilter
 		if q != nil {
@@ -669,8 +682,8 @@ func (st *contentState) evaluate(startCalls int, qeng *bs.BloomSearchEngine) {
 				if hasPF && !hasBloomOrRegex {
 					prop = "C04"
 				}
-				r.Violate(prop, "matching-row-not-returned", "query %s = %s finished with nil error but did not return stored row %s = %s (block %v, partition %q, indexed %v)",
-					qr.Tag, describeQuery(q), id, trunc(ri.Raw), sb.key, ri.Pid, fmtIndexed(ri.Indexed))
+				r.Violate(prop, "matching-row-not-returned", "query %s = %s (Err()=%v, no store fault injected) did not return stored row %s = %s (block %v, partition %q, indexed %v)",
+					qr.Tag, describeQuery(q), qr.Err, id, trunc(ri.Raw), sb.key, ri.Pid, fmtIndexed(ri.Indexed))
 			}
 		}
 		// ---- C02: exactness ----
